@@ -349,7 +349,7 @@ pub fn run(ctx: &Ctx, rep: &mut Report) {
             }
         }
     }
-    rep.bound("beyond_32768_surplus", J::s(format!("{bigs:?}: 12 scattered erasure sets, each exactly sufficient and with one surplus recovery shard, in two arrival orders")));
+    rep.bound("beyond_32768_surplus", J::s(format!("{bigs:?}: 12 scattered erasure sets and up to 6 directed ones (locator exactly 0 / 65535 at a received position, found by running the real eval_poly on candidate sets), each exactly sufficient and with one surplus recovery shard, in two arrival orders")));
     let big_results: Vec<(u64, Vec<Violation>)> = par_for(big_jobs.len(), 1, |i| {
         let (eng, codec, k, r) = big_jobs[i];
         let g = match build_group(eng, codec, k, r, "dense:2", 0, seed) {
@@ -358,7 +358,20 @@ pub fn run(ctx: &Ctx, rep: &mut Report) {
         };
         let mut n = 0u64;
         let mut viols = Vec::new();
-        for (name, og, rg) in crate::c01::families(k, r).into_iter().filter(|f| f.0.starts_with("scatter")) {
+        // directed sets (locator exactly 0 / 65535 at a received position), each also with one surplus recovery shard
+        let (special, _, _) = crate::c01::special_locator_sets(spec_is_high(codec_kind(codec), k, r), k, r, 3);
+        let mut sets: Vec<(String, Vec<usize>, Vec<usize>)> = Vec::new();
+        for (name, og, rg) in special {
+            if let Some(extra) = (0..r).find(|j| !rg.contains(j)) {
+                let mut rg2 = rg.clone();
+                rg2.push(extra);
+                rg2.sort();
+                sets.push((format!("{name}-surplus"), og.clone(), rg2));
+            }
+            sets.push((name, og, rg));
+        }
+        sets.extend(crate::c01::families(k, r).into_iter().filter(|f| f.0.starts_with("scatter")));
+        for (name, og, rg) in sets {
             let o_first: Vec<usize> = og.iter().copied().chain(rg.iter().map(|j| k + j)).collect();
             let r_first: Vec<usize> = rg.iter().rev().map(|j| k + j).chain(og.iter().copied()).collect();
             for order in [o_first, r_first] {
